@@ -319,6 +319,10 @@ class Check:
         os.makedirs(EVID, exist_ok=True)
         nob = len(self.obligations)
         ndis = sum(1 for o in self.obligations if o[1])
+        if ndis != nob and not self.violations:
+            # an obligation that failed without anybody reporting it: the property is no longer shown to hold
+            self.violation({"property": self.pid, "kind": "obligation failed, no failing input at hand",
+                            "failed_obligations": [{"name": n, "detail": str(d)[-1500:]} for n, ok, d in self.obligations if not ok]}, no_input=True)
         cov = {
             "obligations": nob,
             "discharged": ndis,
